@@ -36,8 +36,9 @@ LEVEL_NOTE = ("trusted: numpy, the similarity exponents written in props/C10.py 
               "own lambda, cross-checked against the shock trajectory located from the fields), the memoised Guderley exponent; assumed: dilations "
               "outside the explored words (1/27..8) and configurations beyond one deviation are not seen; GenEOS values are interpolated on an internal "
               "grid that is not similarity-invariant, so there the comparison is to the documented grid resolution")
-BOUND = {"quick": "words of length <= 2 over {t*2, t/3, t*1.7}; roots = default + one-deviation configurations",
-         "thorough": "words of length <= 3 over {t*2, t/3, t*1.7}; roots = default + one-deviation configurations"}
+BOUND = {"quick": "words of length <= 2 over {t*2, t/3, t*1.7}; roots = default + one-deviation configurations (two-deviation for Guderley)",
+         "thorough": "words of length <= 3 over {t*2, t/3, t*1.7}; roots = default + one-deviation configurations (two-deviation for Noh, Cog19, IGEOS, "
+                     "EHEP, Mader, Guderley)"}
 RULE = ("tasks = roots (family x configuration with <= 1 deviation x root time); states = orbit-graph nodes (canonical dilation factors), "
         "transitions = generator applications; an evaluation is one public solver call (one per node + the calls used to locate structure); a case "
         "(root, node, point) is non-trivial when the node is not the identity and the point either straddles a located discontinuity or lies in a "
@@ -96,22 +97,37 @@ def times_of(F, cfg):
     return f["times"](cfg)
 
 
-def roots(F):
+CHEAP = {"Noh", "Cog19", "IGEOS", "EHEP", "Mader"}
+
+
+def roots(F, tier="quick"):
     f = base_of(F)
     alpha = dict(f["alphabet"])
     cfg0 = lattice.full_cfg(alpha, {})
     alpha["_t"] = list(range(len(times_of(F, cfg0))))
-    return alpha, lattice.enumerate_checked(alpha, 1)
+    K = f.get("rootK", 1)            # Guderley: two deviations ((geometry, gamma) x time interact)
+    if tier == "thorough" and F["name"] in CHEAP:
+        K = 2                        # closed forms and IGEOS cost milliseconds
+    return alpha, lattice.enumerate_checked(alpha, K)
 
 
 def preimport():
     from xpmc import hydro_more  # noqa: F401
 
 
+def _only():
+    """Development aid (never set by the registered commands): XPMC_ONLY_FAMILIES=a,b restricts the run; the evidence is then marked capped."""
+    import os
+    v = os.environ.get("XPMC_ONLY_FAMILIES", "")
+    return [x for x in v.split(",") if x]
+
+
 def tasks(tier, seed):
     out = []
     for name in ORDER:
-        alpha, devs = roots(FAMS[name])
+        if _only() and name not in _only():
+            continue
+        alpha, devs = roots(FAMS[name], tier)
         for dev in devs:
             out.append({"family": name, "dev": dev, "depth": DEPTH[tier]})
     return out
@@ -225,23 +241,34 @@ def root_points(F, cfg, kw, t, s):
         return pts, np.array(["region"] * len(pts)), np.ones(len(pts), bool), [], 0
     a, b = f["domain"](cfg, t)
     Fm, calls = field_matrix(f, s, t)
+    if kind == "guderley":     # costly solver: the only structure is the (converging or reflected) shock; 10 points on either side of it
+        a = 0.1
+        jumps = oracle.locate_jumps(Fm, a, b, n=65, max_jumps=1, tol=1e-10)
+        xs = np.array([a, b])
+        pts, cl, nt = similarity_points(a, b, jumps, [], (xs, np.array([True])))
+        return pts, cl, nt, jumps, calls[0]
     geometric = a > 0 and b / a > 20
     scan = 1025 if F["base"].startswith(("IGEOS", "GenEOS")) else f.get("scan", 257)
-    jumps, kinks, xv = structure_points(Fm, a, b, f.get("njumps", 0), scan, f.get("jtol", 1e-13), geometric)
+    jtol = f.get("jtol", 1e-13)
     pad = 0.0
     if F.get("cell"):
-        pad = 4.0 * hydro_more.geneos_cell(cfg, t, s)
+        # class C: a discontinuity is a ramp over one internal cell, so the bisection is stopped at two cells (a ramp "collapses" below that)
+        Fm(np.array([a, b]))
+        cell0 = hydro_more.geneos_cell(cfg, t, s)
+        jtol = 2.0 * cell0 / (b - a)
+        pad = 6.0 * cell0
+    jumps, kinks, xv = structure_points(Fm, a, b, f.get("njumps", 0), scan, jtol, geometric)
     pts, cl, nt = similarity_points(a, b, jumps, kinks, xv, cellpad=pad)
-    if F.get("cell"):          # class C: no points closer than 4 cells to a jump (straddling points are moved out to 4, 8 cells)
-        keep = np.array([c == "region" for c in cl])
+    if F.get("cell"):          # class C: no points closer than 6 cells to a jump (straddling points are moved out to 6, 12 cells)
+        keep = np.array([c == "region" for c in cl], bool)
         extra = []
         for j in jumps:
-            for m_ in (4.0, 8.0):
-                extra += [j["lo"] - m_ * pad / 4.0, j["hi"] + m_ * pad / 4.0]
+            for m_ in (6.0, 12.0):
+                extra += [j["lo"] - m_ * pad / 6.0, j["hi"] + m_ * pad / 6.0]
         extra = [x for x in extra if a <= x <= b]
         pts = np.concatenate([pts[keep], extra])
         cl = np.concatenate([cl[keep], ["front-cells"] * len(extra)])
-        nt = np.concatenate([nt[keep], [True] * len(extra)])
+        nt = np.concatenate([nt[keep], np.ones(len(extra), bool)]).astype(bool)
         o = np.argsort(pts)
         pts, cl, nt = pts[o], cl[o], nt[o]
     return pts, cl, nt, jumps, calls[0]
@@ -255,7 +282,7 @@ def ehep_inside_region_I(cfg, x, t):
 
 def shock_from_fields(f, s, t, a, b, jtol=1e-10):
     Fm, calls = field_matrix(f, s, t)
-    jumps = oracle.locate_jumps(Fm, a, b, n=129, max_jumps=1, tol=jtol)
+    jumps = oracle.locate_jumps(Fm, a, b, n=33, max_jumps=1, tol=jtol)
     return (jumps[0]["x"] if jumps else None), calls[0]
 
 
@@ -305,12 +332,13 @@ def run_task(task):
         a_, b_ = f["domain"](cfg, t)
         r1 = jumps[0]["x"] if jumps else None
         t2 = GUD_FACTOR * (0.6 * tl + 1.0)
-        r2, nc = shock_from_fields(f, s, t2, a_, b_)
+        r2, nc = shock_from_fields(f, s, t2, 0.35 * r1, 1.2 * r1) if r1 is not None else (None, 0)
         res["evals"] += nc
         if r1 is not None and r2 is not None:
             lam_obs = math.log(0.6) / math.log(r2 / r1)
             C["lambda_cross_checks"] = 1
             err = abs(lam_obs - lam) / lam
+            res["lambda_err"] = err
             dg.add(r1, r2)
             if err > 1e-7:       # measured: <= 2e-9 (shock located to 1e-10)
                 res["violations"].append({"solver": F["name"], "cfg": cfg, "clause": "similarity:lambda-vs-shock-trajectory", "where": {"t": t},
@@ -349,11 +377,11 @@ def run_task(task):
         res["evals"] += 1
         cmp_mask = np.ones(len(pts), bool)
         if F.get("cell") and jumps:
-            # class C: not compared within 3 internal cells (of this node's grid) of the image of a located discontinuity
+            # class C: not compared within 4 internal cells (of this node's grid) of the image of a located discontinuity's bracket
             cell = hydro_more.geneos_cell(cfg, t_n, s)
             x0 = centre(F, kw)
             for j in jumps:
-                cmp_mask &= np.abs(pts_n - (x0 + a * (j["x"] - x0))) > 3.0 * cell
+                cmp_mask &= (pts_n < x0 + a * (j["lo"] - x0) - 4.0 * cell) | (pts_n > x0 + a * (j["hi"] - x0) + 4.0 * cell)
             C["points_skipped_near_smeared_jump"] = C.get("points_skipped_near_smeared_jump", 0) + int((~cmp_mask).sum())
         if abs(a - 1.0) > 1e-9:
             for i in np.where(ntmask & cmp_mask)[0]:
@@ -410,8 +438,11 @@ def run_task(task):
 
 
 def postprocess(agg, tier):
+    extra = {"capped": True, "restricted_to_families": _only()} if _only() else {}
     worst = {}
+    lam = 0.0
     for tsk, r in zip(agg["task_list"], agg["results"]):
         if r:
             worst[tsk["family"]] = max(worst.get(tsk["family"], 0.0), r.get("worst", 0.0))
-    return {"worst_mismatch_by_family": {k: float("%.3g" % v) for k, v in sorted(worst.items())}}
+            lam = max(lam, r.get("lambda_err", 0.0))
+    return dict(extra, **{"worst_lambda_cross_check_error": float("%.3g" % lam), "worst_mismatch_by_family": {k: float("%.3g" % v) for k, v in sorted(worst.items())}})
